@@ -208,6 +208,11 @@ theorem simplexOf_row_length (start deltas : Pt) (i : Nat) (hi : i ≤ start.len
   have hi' : i < start.length + 1 := by omega
   simp [simplexOf, List.getD_eq_getElem?_getD, hi']
 
+/-- history independence: `minimize` on an object that earlier runs have used is `minimize` on a
+    fresh object — the result is a function of `(ftol, simplex, f)` only. -/
+theorem nelderMeadOn_eq (obj : NM) (ftol : Rat) (pp : List Pt) (fuel : Nat) :
+    nelderMeadOn rnd f obj ftol pp fuel = nelderMead rnd f ftol pp fuel := rfl
+
 /-- all three overloads never end worse than any vertex of their documented initial simplex -/
 theorem nelderMeadDelta_best (ftol : Rat) (start : Pt) (delta : Rat) (fuel : Nat) (pmin : Pt) (fmin m : Rat) (s : NM)
     (t : List EvN) (h : nelderMeadDelta rnd f ftol start delta fuel = some (.ok pmin fmin s m, t)) :
@@ -217,6 +222,17 @@ theorem nelderMeadDelta_best (ftol : Rat) (start : Pt) (delta : Rat) (fuel : Nat
   exact ⟨b, g⟩
 
 end
+
+/-- … hence every member of a sequence of runs on one object is the fresh-object run, whatever
+    the object went through before -/
+theorem nmSeqOn_eq_fresh (rnd : Rat → Rat) (ftol : Rat) (fuel : Nat) : ∀ (obj : NM) (runs : List ((Pt → Rat) × List Pt)),
+    nmSeqOn rnd ftol fuel obj runs = runs.map (fun r => nelderMead rnd r.1 ftol r.2 fuel)
+  | _, [] => rfl
+  | obj, (g, pp) :: rest => by
+    unfold nmSeqOn
+    simp only [List.map_cons, nelderMeadOn_eq]
+    congr 1
+    exact nmSeqOn_eq_fresh rnd ftol fuel _ rest
 
 /-! ## non-vacuity: concrete runs that terminate with `ok` (so the hypotheses are met) -/
 
